@@ -70,6 +70,8 @@ def atoms(h):
     return out
 
 
+# checks whose property covers the caller's workspace: their histories also validate the Stk* events against SluStack
+STACK_PROPS = {"C14", "C18", "C08"}
 RHS_SHAPES = ("one", "multi", "multi_pad", "zero")
 
 
@@ -161,9 +163,20 @@ def run_histories(ck, alphabet, depth, count, rng, precs=("d",), threads=(1, 2, 
                 if tlc.inconclusive(pr):
                     pr = tlc.pipe_trace(wd, "h%d_%dt" % (i, k), f, timeout=900)
                 pv.append((f, pr))
-        return i, h, prec, txt, st, v, err, pv
-    for i, h, prec, txt, st, v, err, pv in common.pmap(one, items):
+        sr = None
+        if st == "exit:0" and ck.pid in STACK_PROPS:
+            sr, _ = api.validate_stack(wd, "h%d" % i, op)
+        return i, h, prec, txt, st, v, err, pv, sr
+    for i, h, prec, txt, st, v, err, pv, sr in common.pmap(one, items):
         key = "hist:%s:%s" % (prec, json.dumps(h, sort_keys=True))
+        if sr is not None and not tlc.inconclusive(sr):
+            ck.model(sr.get("distinct", 0), sr.get("generated", 0))
+            ck.notes["stack_events_validated"] = ck.notes.get("stack_events_validated", 0) + len(sr["events"])
+            if not sr["ok"]:
+                rl = sr["rejected_line"]
+                ck.violation("stack:" + key, "precision %s: the caller's workspace stack left SluStack (%s) at event %s: %s after %s; history %s" % (
+                    prec, sr["violated"] or "step not allowed", rl, sr["events"][rl - 1] if rl else "?", sr["events"][rl - 2] if rl and rl > 1 else "start", json.dumps(h)),
+                    {"script": txt, "precision": prec})
         ck.case(key, sample={"precision": prec, "history": h, "script": txt.splitlines()} if len(ck.cov["samples"]) < 3 else None)
         if st != "exit:0":
             ck.violation(key, "history did not run to completion (%s): %s | stderr: %s" % (st, json.dumps(h), err[-300:]),
